@@ -12,13 +12,13 @@ static size_t stubv_take(struct c3d *self, unsigned n, const int *pos, unsigned 
   if (*pos == VF_IOS_beg) { f->eof = 0; if (!f->fail) f->pos = 0; }
   else __CPROVER_assert(*pos == VF_IOS_cur, "Header::read reads relative to the current position");
   *ok = 0;
+  f->work += n;
   if (f->eof || f->fail) { f->fail = 1; return 0; }
   size_t avail = (f->is_open && f->pos >= 0 && (size_t)f->pos < f->len) ? f->len - (size_t)f->pos : 0;
   size_t k = n < avail ? n : avail;
   for (unsigned i = 0; i < 4; ++i)
     if (i < k) out4[i] = f->buf[(size_t)f->pos + i];
   f->pos += (long)k;
-  f->work += n;
   if (k != n) { f->eof = 1; f->fail = 1; } else *ok = 1;
   return k;
 }
